@@ -294,6 +294,18 @@ def verifyFromQuorumTx (K : Bytes → Bytes) (vp : Bytes → Bytes → List Byte
       | .ok .err => .error .storProof
       | .ok .absent => .error .absent
       | .ok (.val v) => if !checkProofResult v (K extra) then .error .valueHash else .ok ()
+/-- `QuorumHandler.MakeDepositProposal` after the side-chain lookup, for a fresh cross-chain id and a header the
+validator-signature check accepts (both outside this model): the message is decoded FIRST, then the proof is checked
+against the supplied header's state root; the decoded message is returned. -/
+def quorumMakeDeposit (K : Bytes → Bytes) (vp : Bytes → Bytes → List Bytes → VpRes) (root ccmc : Bytes)
+    (proof : Option EthProof) (extra : Bytes) : Except Reject TxParam :=
+  match decodeTxParam extra with
+  | none => .error .decode
+  | some param =>
+    match verifyFromQuorumTx K vp root ccmc proof extra with
+    | .error e => .error e
+    | .ok _ => .ok param
+
 /-- `verifyFromEthTx(native, proof, extra, fromChainID, height, sideChain)` over the light-client store `s`
 (`root` projects the state root out of a stored header); `proof = none` is a JSON error. -/
 def verifyFromEthTx (K : Bytes → Bytes) (vp : Bytes → Bytes → List Bytes → VpRes) (root : Hdr H R → Bytes)
